@@ -4,4 +4,6 @@ import Comet.Scalar
 import Comet.Agg
 import Comet.Vector.Flat
 import Comet.F32
+import Comet.Distance
+import Comet.DistanceF32
 import Comet.Driver.Loop
